@@ -72,6 +72,7 @@ def cases(draw, tier):
             "unit": draw(st.sampled_from(UNITS)),
             "zone": draw(st.sampled_from(ZONES)),
             "display": draw(st.sampled_from([False, False, True])),
+            "ptz": draw(st.integers(0, 5)),
             "regime": regime}
 
 
@@ -134,7 +135,34 @@ def make_index(t0, secs, unit, zone, regular=False):
     return idx
 
 
+PROCESS_TZ = [None, "UTC", "EST5", "AEST-10", "CET-1CEST,M3.5.0,M10.5.0/3",
+              "NST3:30"]
+
+
 def oracle(case):
+    """The process runs in some local time zone (POSIX TZ strings: no tz
+    database needed); the conversion works on the stamps of the index and is
+    blind to it."""
+    import os
+    import time
+    old = os.environ.get("TZ")
+    ptz = PROCESS_TZ[case.get("ptz", 0) % len(PROCESS_TZ)]
+    try:
+        if ptz is not None:
+            os.environ["TZ"] = ptz
+            time.tzset()
+        res = _oracle(case)
+        res["labels"] = sorted(set(res["labels"]) | {f"process-tz:{ptz}"})
+        return res
+    finally:
+        if old is None:
+            os.environ.pop("TZ", None)
+        else:
+            os.environ["TZ"] = old
+        time.tzset()
+
+
+def _oracle(case):
     P, rainfall, maxgap = case["P"], case["rainfall"], case["maxgap"]
     secs = np.concatenate([[0], np.cumsum(case["steps"])]).astype(np.int64)
     if secs[-1] < 2 * P:
